@@ -1178,7 +1178,7 @@ Section ResourceProps.
       - split; [rewrite app_length; simpl; lia|intros; tauto].
       - rewrite map_app. simpl. apply Permutation_refl. }
     destruct k; simpl in H; try (apply Hplain; auto; discriminate).
-    specialize (Hs eq_refl). pose proof (pre_put_spec Hs H) as Hp. destruct n as [v|].
+    specialize (Hs eq_refl). pose proof (@pre_put_spec cap t c r c' n Hs H) as Hp. destruct n as [v|].
     - destruct Hp as ((_ & _ & _ & _ & _) & Hc & ->). split.
       + split; [|intros _; apply sinsert_sorted; [apply user_le_total|apply user_le_trans|auto]].
         * rewrite sinsert_length. rewrite Hc, app_length in Hl. simpl in Hl. lia.
@@ -1231,13 +1231,13 @@ Section ResourceProps.
     { apply (@R_run _ _ _ _ (res_mach k cap) (@res_mach_ins_in k cap)
                (fun c tr => res_inv c /\ Permutation (holders tr) (map uid c))) with (c0 := []) (h := h); auto.
       - intros t c tr0 id p c' n _ (Hi & Hp) Hd.
-        destruct (res_put_inv Hi Hd) as (Hi' & Hp'). split; auto.
+        destruct (@res_put_inv t c (id, p) c' n Hi Hd) as (Hi' & Hp'). split; auto.
         unfold holders in *. rewrite fold_left_app. simpl.
         eapply perm_trans; [|exact Hp']. simpl. destruct n as [v|]; simpl.
         + apply Permutation_app_tail. apply remove1_perm; auto. apply nat_eqb_spec.
         + apply Permutation_app_tail. auto.
       - intros t c tr0 id g c' n _ (Hi & Hp) Hd.
-        destruct (res_get_inv Hi Hd) as (Hi' & -> & ->). split; auto.
+        destruct (@res_get_inv t c (id, g) c' n Hi Hd) as (Hi' & -> & ->). split; auto.
         unfold holders in *. rewrite fold_left_app. simpl. rewrite remove_user_map.
         apply remove1_perm; auto. apply nat_eqb_spec.
       - split; [split; [simpl; lia|intros; constructor]|constructor]. }
@@ -1264,6 +1264,266 @@ Section ResourceProps.
       intros (t & c & c' & [Hl Hs] & Hd). destruct k; simpl in Hd.
       + unfold res_put in Hd. destruct (length c <? cap)%nat; discriminate.
       + unfold res_put in Hd. destruct (length c <? cap)%nat; discriminate.
-      + split; auto. exists c. apply (pre_put_spec (Hs eq_refl) Hd).
+      + split; auto. exists c. apply (@pre_put_spec cap t c (id, p) c' (Some v) (Hs eq_refl) Hd).
   Qed.
 End ResourceProps.
+
+(* ========================================================================================== *)
+(* Policy order of the queues, instances *)
+Definition fifo_mach {C P G N} (M : mach C P G N) : Prop := forall r q, ins M r q = q ++ [r].
+Definition prio_mach {C G N} (M : mach C req G N) : Prop := forall r q, ins M r q = sinsert rq_le r q.
+
+(* (priority, time, not preempt), then request order *)
+Definition rq_lt (a b : nat * req) : Prop :=
+  klt (rkey (snd a)) (rkey (snd b)) \/ (rkey (snd a) = rkey (snd b) /\ (fst a < fst b)%nat).
+
+Lemma prio_ins_sorted : forall n r q,
+    (n <= fst r)%nat -> Forall (fun x : nat * req => (fst x < n)%nat) q -> StronglySorted rq_lt q ->
+    StronglySorted rq_lt (sinsert rq_le r q).
+Proof.
+  intros n r. induction q as [|y q IH]; simpl; intros Hn Hb Hs.
+  - repeat constructor.
+  - inversion Hs as [|? ? Hs' Hf]; subst. inversion Hb as [|? ? Hy Hb']; subst.
+    destruct (rq_le y r) eqn:E; unfold rq_le in E.
+    + apply lex3_le_spec in E. constructor; auto.
+      apply Forall_forall. intros z Hz. apply sinsert_in in Hz. destruct Hz as [->|Hz].
+      * unfold rq_lt. destruct (klt_cases (rkey (snd y)) (rkey (snd r))) as [H|[H|H]]; auto.
+        -- right. split; auto. lia.
+        -- tauto.
+      * rewrite Forall_forall in Hf; auto.
+    + assert (Hk : klt (rkey (snd r)) (rkey (snd y))).
+      { apply lex3_lt_spec. unfold lex3_le in E. apply negb_false_iff in E. auto. }
+      constructor; auto. constructor; [left; auto|].
+      eapply Forall_impl; [|exact Hf]. intros z [Hz|[Hz _]]; left.
+      * eapply klt_trans; eauto.
+      * rewrite <- Hz. auto.
+Qed.
+
+Theorem grant_order_fifo : forall C P G N (M : mach C P G N), fifo_mach M ->
+    forall c0 h o s outs0 s' outs,
+      incr 0 (h ++ [o]) -> run M (init c0) h = (s, outs0) -> step M s o = (s', outs) ->
+      granted_then_waiting M (@idlt P) s' outs.
+Proof.
+  intros C P G N M Hm c0 h o s outs0 s' outs. eapply grant_order.
+  - intros n r q Hn Hb Hs. rewrite Hm. eapply sorted_snoc; eauto.
+  - intros r q x Hx. rewrite Hm in Hx. apply append_in; auto.
+Qed.
+
+Theorem grant_order_priority : forall C G N (M : mach C req G N), prio_mach M ->
+    forall c0 h o s outs0 s' outs,
+      incr 0 (h ++ [o]) -> run M (init c0) h = (s, outs0) -> step M s o = (s', outs) ->
+      granted_then_waiting M rq_lt s' outs.
+Proof.
+  intros C G N M Hm c0 h o s outs0 s' outs. eapply grant_order.
+  - intros n r q Hn Hb Hs. rewrite Hm. eapply prio_ins_sorted; eauto.
+  - intros r q x Hx. rewrite Hm in Hx. apply sinsert_in in Hx; auto.
+Qed.
+
+(* ========================================================================================== *)
+(* Grantable heads, instances *)
+Definition well_behaved {C P G N} (M : mach C P G N) : Prop :=
+  (forall t t' c r, is_some (do_put M t c r) = is_some (do_put M t' c r)) /\
+  (forall t t' c r, is_some (do_get M t c r) = is_some (do_get M t' c r)) /\
+  (get_all M = true ->
+   forall t c r c1 n r', do_get M t c r = Some (c1, n) -> do_get M t c r' = None -> do_get M t c1 r' = None).
+
+Lemma wb_container : forall cap, well_behaved (container cap).
+Proof. intros cap. repeat split; simpl; auto; discriminate. Qed.
+Lemma wb_store : forall cap, well_behaved (store cap).
+Proof. intros cap. repeat split; simpl; auto; discriminate. Qed.
+Lemma wb_prioritystore : forall cap, well_behaved (prioritystore cap).
+Proof. intros cap. repeat split; simpl; auto; discriminate. Qed.
+Lemma wb_filterstore : forall cap, well_behaved (filterstore cap).
+Proof.
+  intros cap. split; [|split]; simpl; auto. intros _ t c r c1 n r'. apply (@filterstore_get_mono cap t c r c1 n r').
+Qed.
+Lemma wb_res : forall k cap, well_behaved (res_mach k cap).
+Proof.
+  intros k cap. split; [|split].
+  - intros t t' c r. destruct k; simpl; unfold res_put, pre_put;
+      repeat match goal with |- context [if ?b then _ else _] => destruct b end; auto.
+  - intros t t' c r. destruct k; auto.
+  - destruct k; discriminate.
+Qed.
+
+Theorem grantable_head_granted : forall C P G N (M : mach C P G N), well_behaved M ->
+    (* a new request / the callbacks of a granted opposite request serve the queue: afterwards
+       its head is not grantable -- from ANY state, e.g. after cancels *)
+    (forall s o s' outs, step M s o = (s', outs) -> triggers_put M s o = true -> grantable_put M s' = false) /\
+    (forall s o s' outs, step M s o = (s', outs) -> triggers_get M s o = true -> grantable_get M s' = false) /\
+    (* no operation other than cancel leaves a grantable head without a pending callback that serves it *)
+    (forall s o s' outs, step M s o = (s', outs) -> is_cancel o = false ->
+                         Jput M s /\ Jget M s -> Jput M s' /\ Jget M s') /\
+    (* so at the end of a time step (all callbacks processed) of a cancel-free history no head is grantable *)
+    (forall c0 h s outs, run M (init c0) h = (s, outs) -> cancel_free h -> pend s = [] ->
+                         grantable_put M s = false /\ grantable_get M s = false).
+Proof.
+  intros C P G N M (H1 & H2 & H3). repeat split.
+  - intros. eapply step_establishes_Jput; eauto.
+  - intros. eapply step_establishes_Jget; eauto.
+  - eapply step_keeps_J; eauto.
+  - eapply step_keeps_J; eauto.
+  - eapply quiescent_no_grantable_head; eauto.
+  - eapply quiescent_no_grantable_head; eauto.
+Qed.
+
+(* FilterStore: after anything that serves the get queue no waiting request accepts any stored item,
+   wherever in the queue it waits: a request that matches nothing does not block later ones *)
+Theorem filterstore_nonblocking : forall cap s o s' outs,
+    step (filterstore cap) s o = (s', outs) -> triggers_get (filterstore cap) s o = true ->
+    forall r x, In r (getq s') -> In x (content s') -> accepts (snd r) x = false.
+Proof.
+  intros cap s o s' outs H Ht r x Hr Hx.
+  destruct (wb_filterstore cap) as (_ & _ & H3).
+  assert (Hg : grantable_get (filterstore cap) s' = false) by (eapply step_establishes_Jget; eauto).
+  unfold grantable_get in Hg. simpl in Hg.
+  assert (Hn : is_some (match first_match (accepts (snd r)) (content s') with
+                        | Some (x0, c') => Some (c', Some x0) | None => None end) = false).
+  { destruct (is_some _) eqn:E; auto.
+    assert (existsb (fun r0 => is_some (match first_match (accepts (snd r0)) (content s') with
+                        | Some (x0, c') => Some (c', Some x0) | None => None end)) (getq s') = true).
+    { apply existsb_exists. exists r. auto. }
+    congruence. }
+  destruct (first_match (accepts (snd r)) (content s')) as [[y l]|] eqn:E; [discriminate|].
+  apply first_match_none in E. rewrite Forall_forall in E. auto.
+Qed.
+
+(* ========================================================================================== *)
+(* cancel / release give back exactly what was held *)
+Lemma res_get_all : forall k cap, get_all (res_mach k cap) = false.
+Proof. destruct k; auto. Qed.
+
+Lemma res_trigger_put_getq : forall k cap s, getq (fst (trigger_put (res_mach k cap) s)) = getq s.
+Proof.
+  intros. destruct (trigger_put_eq (res_mach k cap) s) as (c & gs & rest & _ & E). rewrite E. auto.
+Qed.
+
+Lemma res_trigger_get_nil : forall k cap s, getq s = [] -> getq (fst (trigger_get (res_mach k cap) s)) = [].
+Proof.
+  intros k cap s H. unfold trigger_get. rewrite res_get_all, H. simpl. auto.
+Qed.
+
+Theorem release_exact : forall k cap s id rid, getq s = [] ->
+    step (res_mach k cap) s (OGet id rid) =
+    (St (now s) (remove_user rid (content s)) (putq s) [] (pend s ++ [(id, false)]), [EGet id rid None]).
+Proof.
+  intros k cap s id rid H. destruct k; simpl; unfold trigger_get; simpl; rewrite H; reflexivity.
+Qed.
+
+Lemma res_step_getq : forall k cap s o, getq s = [] -> getq (fst (step (res_mach k cap) s o)) = [].
+Proof.
+  intros k cap s o H. destruct o as [t|id p|id g|id|id].
+  - simpl; auto.
+  - simpl. assert (E : okp (res_mach k cap) p = true) by (destruct k; auto). rewrite E.
+    rewrite res_trigger_put_getq. auto.
+  - rewrite (release_exact k cap s id g H). auto.
+  - simpl. rewrite H. auto.
+  - simpl. destruct (take_pend id (pend s)) as [[[|] l]|]; auto.
+    + apply res_trigger_get_nil. auto.
+    + rewrite res_trigger_put_getq. auto.
+Qed.
+
+(* a release is always granted at once: the get queue of a resource is empty after every history *)
+Theorem res_getq_empty : forall k cap h s, getq s = [] -> getq (fst (run (res_mach k cap) s h)) = [].
+Proof.
+  induction h as [|o h IH]; simpl; intros s H; auto.
+  pose proof (res_step_getq k cap s o H) as H1. destruct (step (res_mach k cap) s o) as [s1 e1].
+  specialize (IH s1 H1). destruct (run (res_mach k cap) s1 h) as [s2 e2]. auto.
+Qed.
+
+Lemma remove_user_count : forall rid c,
+    length (remove_user rid c) =
+    (length c - (if existsb (fun u => Nat.eqb (uid u) rid) c then 1 else 0))%nat.
+Proof.
+  induction c as [|u c IH]; simpl; auto.
+  destruct (Nat.eqb (uid u) rid); simpl; [lia|]. rewrite IH.
+  destruct (existsb _ c) eqn:E; [|lia].
+  apply existsb_exists in E. destruct E as (x & Hx & _). destruct c; [destruct Hx|simpl; lia].
+Qed.
+
+Lemma remove_user_others : forall rid c u, uid u <> rid -> (In u (remove_user rid c) <-> In u c).
+Proof.
+  induction c as [|a c IH]; simpl; intros u Hu; [tauto|].
+  destruct (Nat.eqb_spec (uid a) rid).
+  - split; auto. intros [->|H]; auto. congruence.
+  - simpl. rewrite IH; auto. tauto.
+Qed.
+
+Theorem cancel_release_give_back : forall k cap h s tr,
+    run (res_mach k cap) (init []) h = (s, tr) ->
+    (* release of request rid: granted at once, frees exactly the slot of rid if it holds one and nothing
+       otherwise (idempotent), touches nobody else and no queue *)
+    (forall id rid, exists s',
+        step (res_mach k cap) s (OGet id rid) = (s', [EGet id rid None]) /\
+        content s' = remove_user rid (content s) /\ putq s' = putq s /\ getq s' = [] /\
+        length (content s') =
+          (length (content s) - (if existsb (fun u => Nat.eqb (uid u) rid) (content s) then 1 else 0))%nat /\
+        (forall u, uid u <> rid -> (In u (content s') <-> In u (content s)))) /\
+    (* cancel: only the place in the queue is given back *)
+    (forall id, step (res_mach k cap) s (OCancel id) =
+                (St (now s) (content s) (remove_id id (putq s)) (remove_id id (getq s)) (pend s), [])).
+Proof.
+  intros k cap h s tr H. split; [|intros; reflexivity].
+  intros id rid. pose proof (res_getq_empty k cap h (init []) eq_refl) as Hq. rewrite H in Hq. simpl in Hq.
+  eexists. split; [apply release_exact; auto|]. simpl. repeat split; auto.
+  - apply remove_user_count.
+  - apply remove_user_others; auto.
+  - apply remove_user_others; auto.
+Qed.
+
+(* the preempting request IS served when it is strictly better than the worst user *)
+Lemma preempt_complete : forall cap t c r v rc,
+    length c = cap -> preempt (snd r) = true -> rev c = v :: rc -> klt (rkey (snd r)) (rkey (ureq v)) ->
+    exists c', pre_put cap t c r = Some (c', Some v).
+Proof.
+  intros cap t c r v rc Hl Hp Hr Hk. unfold pre_put, preempt_victim.
+  assert (E : (cap <=? length c)%nat = true) by (apply Nat.leb_le; lia).
+  apply lex3_lt_spec in Hk. rewrite E, Hp, Hr. cbn [andb]. rewrite Hk. cbv zeta beta iota.
+  destruct (rev_last _ Hr) as [Hc Hrl].
+  assert (E2 : (length (removelast c) <? cap)%nat = true).
+  { apply Nat.ltb_lt. rewrite Hrl. rewrite Hc, app_length in Hl. simpl in Hl. lia. }
+  rewrite E2. eauto.
+Qed.
+
+(* ========================================================================================== *)
+(* Statements as exported by props/C19.v *)
+Theorem filterstore_first_match_nonblocking : forall cap,
+    (forall h s tr, run (filterstore cap) (init []) h = (s, tr) ->
+                    fs_spec [] tr (content s) /\ (length (content s) <= cap)%nat) /\
+    (forall s o s' outs,
+        step (filterstore cap) s o = (s', outs) -> triggers_get (filterstore cap) s o = true ->
+        forall r x, In r (getq s') -> In x (content s') -> accepts (snd r) x = false).
+Proof. intros cap. split; [apply filterstore_first_match|apply filterstore_nonblocking]. Qed.
+
+Definition all_fifo_or_prio : Prop :=
+  (forall cap, fifo_mach (container cap)) /\ (forall cap, fifo_mach (store cap)) /\
+  (forall cap, fifo_mach (prioritystore cap)) /\ (forall cap, fifo_mach (filterstore cap)) /\
+  (forall cap, fifo_mach (resource cap)) /\
+  (forall cap, prio_mach (priorityresource cap)) /\ (forall cap, prio_mach (preemptiveresource cap)).
+
+Theorem grant_policy_order :
+    (forall C P G N (M : mach C P G N), fifo_mach M ->
+     forall c0 h o s outs0 s' outs,
+       incr 0 (h ++ [o]) -> run M (init c0) h = (s, outs0) -> step M s o = (s', outs) ->
+       granted_then_waiting M (@idlt P) s' outs) /\
+    (forall C G N (M : mach C req G N), prio_mach M ->
+     forall c0 h o s outs0 s' outs,
+       incr 0 (h ++ [o]) -> run M (init c0) h = (s, outs0) -> step M s o = (s', outs) ->
+       granted_then_waiting M rq_lt s' outs) /\
+    all_fifo_or_prio.
+Proof.
+  split; [exact grant_order_fifo|]. split; [exact grant_order_priority|].
+  unfold all_fifo_or_prio, fifo_mach, prio_mach. repeat split; reflexivity.
+Qed.
+
+Definition all_well_behaved : Prop :=
+  (forall cap, well_behaved (container cap)) /\ (forall cap, well_behaved (store cap)) /\
+  (forall cap, well_behaved (prioritystore cap)) /\ (forall cap, well_behaved (filterstore cap)) /\
+  (forall k cap, well_behaved (res_mach k cap)).
+
+Theorem every_resource_well_behaved : all_well_behaved.
+Proof.
+  unfold all_well_behaved. repeat split;
+    try apply wb_container; try apply wb_store; try apply wb_prioritystore;
+    try apply wb_filterstore; try apply wb_res.
+Qed.
